@@ -109,13 +109,9 @@ def self_struct(sim, st, fn, gargs, conf, list_len=None):
     fields = list(flat(sim, st, v).fields)
     for i, (n, t) in enumerate(names):
         if conf.get("no_follow") and is_adt(t, "SettableData"):
-            sd = sim.expand(st, fields[i])
-            sdf = list(sd.fields)
-            fnames = sim.adt_fields(t)
-            for j, (fn_, ft) in enumerate(fnames):
-                if fn_ == "following":
-                    sdf[j] = sim.mk_enum(ft, "None")
-            fields[i] = Struct(t, sdf)
+            # not following, holding a symbolic last request (built by the crate's own constructor and set())
+            import sdkit
+            fields[i] = sdkit.kit(sim, sim.prog).make(t, following=None, request=Sym("self.%s.request" % n, t["args"][0]))
         if list_len is not None and is_adt(t, "VecDeque"):
             et = t["args"][0]
             fields[i] = M.mk_list([Sym("self.%s[%d]" % (n, k), et) for k in range(list_len)], t)
